@@ -278,8 +278,15 @@ Record dl := { dl_path : bool; dl_file : option bytes }.
 
 Definition content (st : dl) : bytes := match dl_file st with Some c => c | None => [] end.
 
-(** [_write_file]: [open(file=self.file_path, mode="ab")] — APPEND, creating the file. *)
+(** [_write_file]: [open(file=self.file_path, mode="wb")] — TRUNCATE (or create), then write:
+    whatever the file held before is gone. *)
 Definition write_file (st : dl) (b : bytes) : dres dl :=
+  if dl_path st then DOk {| dl_path := true; dl_file := Some b |}
+  else DRaise ExTypeError.
+
+(** Behaviour before the repair (mode "ab", /repo commit be88f64 changed it): kept only to
+    document what the monitor clause [download_exact_bytes] guards against. *)
+Definition write_file_append (st : dl) (b : bytes) : dres dl :=
   if dl_path st then DOk {| dl_path := true; dl_file := Some (content st ++ b) |}
   else DRaise ExTypeError.
 
